@@ -1,11 +1,29 @@
 package main
 
+// C01: evaluation agrees with the language's reference semantics.
+//
+// Correspondence: every generated program is parsed by the REAL parser; the tree is dumped into the case
+// line and evaluated (a) by the real evaluator on a fresh state (registers off; a second run with the default
+// settings is compared and only counted) and (b) by the reference evaluator extracted from the Coq
+// development (coq/model/RefEval.v).  Printed bytes, typed structural value and error flag must be equal.
+// Since the property IS agreement with the reference, a disagreement that survives shrinking is reported as
+// the failing input, with a narrow signature (construct + outcome class pair).
+//
+// Direct (model-free) oracles on the implementation alone: determinism on a fresh state, and
+// "wrapping in a function does not change the meaning of an expression over global variables"
+// (the class of defects where an outer variable was seen as a Reference object).
+
 import (
 	"bufio"
 	"fmt"
 	"os"
+	"sort"
+	"strings"
 
+	"grol.io/grol/ast"
+	"grol.io/grol/eval"
 	"grol.io/grol/extensions"
+	"grol.io/grol/object"
 	"verifharness/common"
 	. "verifharness/common"
 )
@@ -21,6 +39,24 @@ func main() {
 	common.Main("C01", runC01)
 }
 
+// ---------------------------------------------------------------------------------------------------
+// TEMPORARY allow-list: disagreement classes whose repair is being made by another property's work.
+// Keyed by signature prefix.  Entries are removed as the fixes land in /repo (git -C /repo log).
+// Currently empty: integer / % << by a bad operand (03fbbe9), slice bound clamping (5f9b2de),
+// large array/map aliasing (cec7cc4, 143b918, 29e3f5f), exact int/float comparison and the
+// cache defects have all landed.
+var allowList = map[string]string{}
+
+func allowed(sig string) (string, bool) {
+	for p, why := range allowList {
+		if strings.HasPrefix(sig, p) {
+			return why, true
+		}
+	}
+	return "", false
+}
+
+// ---------------------------------------------------------------------------------------------------
 func probe() {
 	mp := startModel()
 	defer mp.stop()
@@ -54,4 +90,777 @@ func probe() {
 	}
 }
 
-func runC01(c *Ctx) {}
+// ---------------------------------------------------------------------------------------------------
+// names the generator may use must not be keywords, extensions or pre-seeded identifiers
+func reservedIdent(prog ast.Node, st *eval.State) string {
+	bad := ""
+	var walk func(n ast.Node)
+	seen := map[string]bool{}
+	check := func(name string) {
+		if seen[name] || bad != "" {
+			return
+		}
+		seen[name] = true
+		if name == "nil" || name == "null" || name == ".." || name == "self" {
+			return
+		}
+		if _, ok := st.Extensions[name]; ok {
+			bad = name
+			return
+		}
+		if object.IsExtraFunction(name) {
+			bad = name
+			return
+		}
+		if rootHas(name) {
+			bad = name
+		}
+	}
+	walk = func(n ast.Node) {
+		if isNil(n) || bad != "" {
+			return
+		}
+		switch x := n.(type) {
+		case *ast.Identifier:
+			check(x.Literal())
+		case *ast.Statements:
+			for _, s := range x.Statements {
+				walk(s)
+			}
+		case *ast.ReturnStatement:
+			walk(x.ReturnValue)
+		case *ast.PrefixExpression:
+			walk(x.Right)
+		case *ast.PostfixExpression:
+			check(x.Prev.Literal())
+		case *ast.InfixExpression:
+			walk(x.Left)
+			walk(x.Right)
+		case *ast.ForExpression:
+			walk(x.Condition)
+			if x.Body != nil {
+				walk(x.Body)
+			}
+		case *ast.IfExpression:
+			walk(x.Condition)
+			if x.Consequence != nil {
+				walk(x.Consequence)
+			}
+			if x.Alternative != nil {
+				walk(x.Alternative)
+			}
+		case *ast.Builtin:
+			for _, p := range x.Parameters {
+				walk(p)
+			}
+		case *ast.FunctionLiteral:
+			if x.Name != nil {
+				check(x.Name.Literal())
+			}
+			for _, p := range x.Parameters {
+				walk(p)
+			}
+			if x.Body != nil {
+				walk(x.Body)
+			}
+		case *ast.CallExpression:
+			walk(x.Function)
+			for _, p := range x.Arguments {
+				walk(p)
+			}
+		case *ast.ArrayLiteral:
+			for _, p := range x.Elements {
+				walk(p)
+			}
+		case *ast.IndexExpression:
+			walk(x.Left)
+			if x.Token.Literal() != "." {
+				walk(x.Index)
+			}
+		case *ast.MapLiteral:
+			for _, k := range x.Order {
+				walk(k)
+				walk(x.Pairs[k])
+			}
+		}
+	}
+	walk(prog)
+	return bad
+}
+
+var rootNames map[string]bool
+
+func rootHas(name string) bool {
+	if rootNames == nil {
+		rootNames = map[string]bool{}
+		for _, n := range []string{"PI", "E", "NaN", "Inf", "abs", "keys", "log2", "printf", "str", "info"} {
+			rootNames[n] = true
+		}
+	}
+	if rootNames[name] {
+		return true
+	}
+	// anything else pre-seeded in the root environment
+	r := runImpl(name, true)
+	known := r.class != "E"
+	rootNames[name] = known
+	return known
+}
+
+func isNil(n ast.Node) bool {
+	if n == nil {
+		return true
+	}
+	switch x := n.(type) {
+	case *ast.Statements:
+		return x == nil
+	case *ast.Identifier:
+		return x == nil
+	}
+	return false
+}
+
+// ---------------------------------------------------------------------------------------------------
+type runner struct {
+	c         *Ctx
+	mp        *modelProc
+	st        *eval.State
+	shrunk    int
+	regDiffs  []string
+	nSkip     int
+	nCompared int
+	nParseErr int
+}
+
+// outcome class pair of a disagreement
+func classPair(impl implRes, model string) string {
+	mc := "?"
+	switch {
+	case strings.Contains(model, " RES V "):
+		mc = "V"
+	case strings.HasSuffix(model, " RES E"):
+		mc = "E"
+	}
+	ic := impl.class
+	if ic == "P" {
+		ic = "P-" + strings.SplitN(impl.val, ":", 2)[0]
+	}
+	if ic == "V" && mc == "V" {
+		mOut := strings.SplitN(strings.TrimPrefix(model, "OUT "), " ", 2)[0]
+		if mOut != Hx(impl.out) {
+			return "output-differs"
+		}
+		return "value-differs"
+	}
+	if ic == mc {
+		return "output-differs-" + ic
+	}
+	return "impl-" + ic + "-vs-ref-" + mc
+}
+
+// the constructs of a (shrunk) program, most specific first
+func constructs(prog ast.Node) string {
+	set := map[string]bool{}
+	var walk func(n ast.Node)
+	walk = func(n ast.Node) {
+		if isNil(n) {
+			return
+		}
+		switch x := n.(type) {
+		case *ast.Statements:
+			for _, s := range x.Statements {
+				walk(s)
+			}
+		case *ast.ReturnStatement:
+			set["return"] = true
+			walk(x.ReturnValue)
+		case *ast.ControlExpression:
+			set[x.Literal()] = true
+		case *ast.PrefixExpression:
+			set["prefix"+x.Literal()] = true
+			walk(x.Right)
+		case *ast.PostfixExpression:
+			set["postfix"+x.Literal()] = true
+		case *ast.InfixExpression:
+			set["infix"+x.Literal()] = true
+			walk(x.Left)
+			walk(x.Right)
+		case *ast.ForExpression:
+			set["for"] = true
+			walk(x.Condition)
+			if x.Body != nil {
+				walk(x.Body)
+			}
+		case *ast.IfExpression:
+			set["if"] = true
+			walk(x.Condition)
+			if x.Consequence != nil {
+				walk(x.Consequence)
+			}
+			if x.Alternative != nil {
+				walk(x.Alternative)
+			}
+		case *ast.Builtin:
+			set[x.Literal()] = true
+			for _, p := range x.Parameters {
+				walk(p)
+			}
+		case *ast.FunctionLiteral:
+			set["func"] = true
+			if x.Body != nil {
+				walk(x.Body)
+			}
+		case *ast.CallExpression:
+			set["call"] = true
+			walk(x.Function)
+			for _, p := range x.Arguments {
+				walk(p)
+			}
+		case *ast.ArrayLiteral:
+			set["array"] = true
+			for _, p := range x.Elements {
+				walk(p)
+			}
+		case *ast.IndexExpression:
+			if x.Token.Literal() == "." {
+				set["dot"] = true
+			} else {
+				set["index"] = true
+			}
+			walk(x.Left)
+			walk(x.Index)
+		case *ast.MapLiteral:
+			set["map"] = true
+			for _, k := range x.Order {
+				walk(k)
+				walk(x.Pairs[k])
+			}
+		case *ast.FloatLiteral:
+			set["float"] = true
+		case *ast.StringLiteral:
+			set["string"] = true
+		}
+	}
+	walk(prog)
+	delete(set, "infix=")
+	var ks []string
+	for k := range set {
+		ks = append(ks, k)
+	}
+	sort.Strings(ks)
+	if len(ks) > 6 {
+		ks = ks[:6]
+	}
+	if len(ks) == 0 {
+		return "literal"
+	}
+	return strings.Join(ks, "+")
+}
+
+// one program through both evaluators; returns (impl, model observation, parsed tree, in-domain)
+func (r *runner) both(src string) (implRes, string, ast.Node, bool) {
+	prog, ok := parseProgram(src)
+	if !ok {
+		return implRes{}, "", nil, false
+	}
+	impl := runImpl(src, true)
+	mo := "SKIP no-model"
+	if r.mp != nil {
+		mo = r.mp.ask(caseLine(src, prog))
+	}
+	return impl, mo, prog, true
+}
+
+func (r *runner) disagree(src string) (bool, string) {
+	impl, mo, _, ok := r.both(src)
+	if !ok || strings.HasPrefix(mo, "SKIP") {
+		return false, ""
+	}
+	if impl.obs == mo {
+		return false, ""
+	}
+	return true, classPair(impl, mo)
+}
+
+// one generated or corpus program
+func (r *runner) one(src string, kind string, feats map[string]bool) {
+	c := r.c
+	prog, ok := parseProgram(src)
+	if !ok {
+		r.nParseErr++
+		c.Count("parse-error")
+		return
+	}
+	if bad := reservedIdent(prog, r.st); bad != "" {
+		c.Count("uses-predefined-name")
+		return
+	}
+	impl := runImpl(src, true)
+	line := caseLine(src, prog)
+	// default settings (registers on): differences are other properties' business, only counted
+	dflt := runImpl(src, false)
+	if dflt.obs != impl.obs {
+		c.Count("registers-on-vs-off-differ")
+		if len(r.regDiffs) < 10 {
+			r.regDiffs = append(r.regDiffs, fmt.Sprintf("%q off=%s on=%s", src, impl.obs, dflt.obs))
+		}
+	}
+	// determinism of the implementation on a fresh state (model-free)
+	if again := runImpl(src, true); again.obs != impl.obs {
+		c.Fail("nondeterministic:"+constructs(prog), "EVAL "+Hx([]byte(src)), fmt.Sprintf("first %s then %s", impl.obs, again.obs))
+	}
+	c.Count("kind=" + kind)
+	c.Count("impl-outcome=" + impl.class)
+	if r.mp == nil {
+		c.Case(line, impl.obs)
+		return
+	}
+	mo := r.mp.ask(line)
+	if strings.HasPrefix(mo, "SKIP") {
+		r.nSkip++
+		c.Count("model-" + strings.ReplaceAll(mo, " ", "="))
+		c.Case(line, impl.obs)
+		return
+	}
+	r.nCompared++
+	if mo == impl.obs {
+		c.Case(line, impl.obs)
+		// non-trivial: the program printed something or produced a container / error, through >= 3 distinct constructs
+		if len(feats) >= 3 || len(impl.out) > 0 {
+			c.NonTrivial(src)
+		}
+		return
+	}
+	// disagreement: shrink, classify
+	pair := classPair(impl, mo)
+	small := src
+	if r.shrunk < 12 {
+		r.shrunk++
+		small = r.shrink(src, pair)
+	}
+	sprog, _ := parseProgram(small)
+	sig := constructs(sprog) + ":" + pair
+	simpl, smo, _, _ := r.both(small)
+	detail := fmt.Sprintf("program %q: implementation %s (%s), reference %s; found as %q", small, simpl.obs, simpl.val, smo, src)
+	if why, ok := allowed(sig); ok {
+		c.Count("allow-listed:" + sig + " (" + why + ")")
+		return
+	}
+	c.Fail(sig, "EVAL "+Hx([]byte(small)), detail)
+	c.Case(line, impl.obs)
+}
+
+// ---------------------------------------------------------------------------------------------------
+// shrinking on the real syntax tree: statement deletion, sub-expression hoisting, literal simplification.
+// A candidate is kept when it still parses and still disagrees with the same outcome class pair.
+func (r *runner) shrink(src, pair string) string {
+	best := src
+	budget := 400
+	for round := 0; round < 30; round++ {
+		prog, ok := parseProgram(best)
+		if !ok {
+			return best
+		}
+		cands := shrinkCandidates(prog)
+		improved := false
+		for _, cand := range cands {
+			if budget <= 0 {
+				return best
+			}
+			if len(cand) >= len(best) || cand == "" {
+				continue
+			}
+			budget--
+			if dis, p := r.disagree(cand); dis && p == pair {
+				best = cand
+				improved = true
+				break
+			}
+		}
+		if !improved {
+			return best
+		}
+	}
+	return best
+}
+
+func render(prog ast.Node) string {
+	defer func() { recover() }()
+	ps := ast.NewPrintState()
+	ps.Compact = true
+	return prog.PrettyPrint(ps).String()
+}
+
+func shrinkCandidates(prog *ast.Statements) []string {
+	var out []string
+	emit := func() {
+		s := render(prog)
+		if s != "" {
+			out = append(out, s)
+		}
+	}
+	zero := &ast.IntegerLiteral{Val: 0}
+	if p, ok := parseProgram("0"); ok && len(p.Statements) == 1 {
+		if il, ok := p.Statements[0].(*ast.IntegerLiteral); ok {
+			zero = il
+		}
+	}
+	var walkStmts func(s *ast.Statements)
+	var walkSlot func(get func() ast.Node, set func(ast.Node))
+	subs := func(n ast.Node) []ast.Node {
+		switch x := n.(type) {
+		case *ast.InfixExpression:
+			return []ast.Node{x.Left, x.Right}
+		case *ast.PrefixExpression:
+			return []ast.Node{x.Right}
+		case *ast.CallExpression:
+			return append([]ast.Node{x.Function}, x.Arguments...)
+		case *ast.IndexExpression:
+			return []ast.Node{x.Left, x.Index}
+		case *ast.ArrayLiteral:
+			return x.Elements
+		case *ast.Builtin:
+			return x.Parameters
+		case *ast.IfExpression:
+			r := []ast.Node{x.Condition}
+			if x.Consequence != nil && len(x.Consequence.Statements) == 1 {
+				r = append(r, x.Consequence.Statements[0])
+			}
+			if x.Alternative != nil && len(x.Alternative.Statements) == 1 {
+				r = append(r, x.Alternative.Statements[0])
+			}
+			return r
+		}
+		return nil
+	}
+	walkNode := func(n ast.Node) {}
+	walkNode = func(n ast.Node) {
+		if isNil(n) {
+			return
+		}
+		switch x := n.(type) {
+		case *ast.Statements:
+			walkStmts(x)
+		case *ast.InfixExpression:
+			walkSlot(func() ast.Node { return x.Left }, func(v ast.Node) { x.Left = v })
+			walkSlot(func() ast.Node { return x.Right }, func(v ast.Node) { x.Right = v })
+		case *ast.PrefixExpression:
+			walkSlot(func() ast.Node { return x.Right }, func(v ast.Node) { x.Right = v })
+		case *ast.ReturnStatement:
+			walkSlot(func() ast.Node { return x.ReturnValue }, func(v ast.Node) { x.ReturnValue = v })
+		case *ast.IfExpression:
+			walkSlot(func() ast.Node { return x.Condition }, func(v ast.Node) { x.Condition = v })
+			if x.Consequence != nil {
+				walkStmts(x.Consequence)
+			}
+			if x.Alternative != nil {
+				walkStmts(x.Alternative)
+				old := x.Alternative
+				x.Alternative = nil
+				emit()
+				x.Alternative = old
+			}
+		case *ast.ForExpression:
+			walkSlot(func() ast.Node { return x.Condition }, func(v ast.Node) { x.Condition = v })
+			if x.Body != nil {
+				walkStmts(x.Body)
+			}
+		case *ast.FunctionLiteral:
+			if x.Body != nil {
+				walkStmts(x.Body)
+			}
+		case *ast.CallExpression:
+			walkSlot(func() ast.Node { return x.Function }, func(v ast.Node) { x.Function = v })
+			for i := range x.Arguments {
+				i := i
+				walkSlot(func() ast.Node { return x.Arguments[i] }, func(v ast.Node) { x.Arguments[i] = v })
+			}
+		case *ast.ArrayLiteral:
+			for i := range x.Elements {
+				i := i
+				walkSlot(func() ast.Node { return x.Elements[i] }, func(v ast.Node) { x.Elements[i] = v })
+			}
+			if len(x.Elements) > 1 {
+				old := x.Elements
+				x.Elements = old[:len(old)/2]
+				emit()
+				x.Elements = old[len(old)/2:]
+				emit()
+				x.Elements = old
+			}
+		case *ast.Builtin:
+			for i := range x.Parameters {
+				i := i
+				walkSlot(func() ast.Node { return x.Parameters[i] }, func(v ast.Node) { x.Parameters[i] = v })
+			}
+		case *ast.IndexExpression:
+			walkSlot(func() ast.Node { return x.Left }, func(v ast.Node) { x.Left = v })
+			if x.Token.Literal() != "." {
+				walkSlot(func() ast.Node { return x.Index }, func(v ast.Node) { x.Index = v })
+			}
+		case *ast.MapLiteral:
+			if len(x.Order) > 1 {
+				old := x.Order
+				x.Order = old[:len(old)/2]
+				emit()
+				x.Order = old[len(old)/2:]
+				emit()
+				x.Order = old
+			}
+		}
+	}
+	walkSlot = func(get func() ast.Node, set func(ast.Node)) {
+		cur := get()
+		if isNil(cur) {
+			return
+		}
+		// hoist a sub-expression into the slot
+		for _, s := range subs(cur) {
+			if isNil(s) {
+				continue
+			}
+			set(s)
+			emit()
+		}
+		// simplify to a literal
+		if _, isLit := cur.(*ast.IntegerLiteral); !isLit {
+			set(zero)
+			emit()
+		}
+		set(cur)
+		walkNode(cur)
+	}
+	walkStmts = func(s *ast.Statements) {
+		// delete one statement (and halves of long lists)
+		old := s.Statements
+		if len(old) > 3 {
+			s.Statements = old[:len(old)/2]
+			emit()
+			s.Statements = old[len(old)/2:]
+			emit()
+		}
+		for i := range old {
+			ns := make([]ast.Node, 0, len(old)-1)
+			ns = append(ns, old[:i]...)
+			ns = append(ns, old[i+1:]...)
+			s.Statements = ns
+			emit()
+		}
+		s.Statements = old
+		for i := range old {
+			i := i
+			// replace a compound statement by its body / operands
+			switch x := old[i].(type) {
+			case *ast.IfExpression:
+				for _, b := range []*ast.Statements{x.Consequence, x.Alternative} {
+					if b != nil {
+						ns := append(append(append([]ast.Node{}, old[:i]...), b.Statements...), old[i+1:]...)
+						s.Statements = ns
+						emit()
+					}
+				}
+				s.Statements = old
+			case *ast.ForExpression:
+				if x.Body != nil {
+					ns := append(append(append([]ast.Node{}, old[:i]...), x.Body.Statements...), old[i+1:]...)
+					s.Statements = ns
+					emit()
+					s.Statements = old
+				}
+			}
+			walkSlot(func() ast.Node { return s.Statements[i] }, func(v ast.Node) { s.Statements[i] = v })
+		}
+	}
+	walkStmts(prog)
+	return out
+}
+
+// ---------------------------------------------------------------------------------------------------
+// corpus: minimised past failures and the candidate disagreements of the design (run first)
+var corpus = []string{
+	`s="a";func f(){print(s)};f();print(s)`,
+	`func mk(x,other){()=>if other==nil {x} else {other()+x}};a=mk(1,nil);b=mk(2,a);b()`,
+	`c=0;func f(){c=c+1;c};print(f());c`,
+	`c=0;func f(){c=c+1;c};error(f())`,
+	`x=true;func f(){if x {1}};f()`,
+	`x=3;func f(){for x {print("a")}};f()`,
+	`x=3;func f(){for i=x {print(i)}};f()`,
+	`x=2;func f(){for i=0:x{print(i)}};f()`,
+	`x=[1,2];func f(){for i=x {print(i)}};f()`,
+	`x=1;func f(){m=catch(x);x=2;m};f()`,
+	`m={1:2};func f(){del(m[1])};f();m`,
+	`{1:error("x")}`, `{error("x"):1}`, `m={};m[error("x")]=1;m`,
+	`for true{break}`,
+	`i=0;for i<5{i++;if i==2{continue};if i==4{break};print(i)}`,
+	`for i=3{for true{break};print(i)}`,
+	`x=1;func f(){a=[x];x=2;a};f()`,
+	`1/0`, `1%0`, `1<<(-1)`, `1>>(-1)`, `catch(1/0).err`,
+	`"abc"[-5:2]`, `a=[1,2,3];a[-7:1]`, `"abc"[5:10]`, `[1,2,3][2:1]`,
+	`a=[1,2,3,4,5,6,7,8,9,10];b=a;b[0]=99;a[0]`,
+	`a=[1,2,3,4,5,6,7,8,9];b=a+[10];x=b+[11];y=b+[12];x`,
+	`m={1:1,2:2,3:3,4:4,5:5};n=m;n[1]=99;m[1]`,
+	`m={1:1,2:2,3:3,4:4,5:5};n=m;del(n[1]);m`,
+	`m={"a":1,"b":2}+{};rest(m)`,
+	`a=9007199254740992;b=9007199254740992.0;c=9007199254740993;[c<=b,b<=a,c<=a]`,
+	`true&&1`, `1&&true`, `false||1`, `nil||true`, `nil<1`, `1<<64`, `-8>>1`, `{1:1,1.0:2}`, `[1]==[1.0]`, `1==1.0`,
+	`(-9223372036854775807-1)/(-1)`, `(-9223372036854775807-1)%(-1)`, `9223372036854775807+1`, `-(-9223372036854775807-1)`,
+	`func test(n) {if (n==2) {x=1}; if (n==1) {return x}; test(n-1)}; test(3)`,
+	`func a(){q=1;b()};func b(){q};a()`,
+	`x=1;func f(){x:=2;x};[f(),x]`, `x=1;func f(){x=2};f();x`, `func f(){y=5};f();y`,
+	`func mk(){n:=0;()=>{n++;n}};g=mk();h=mk();[g(),g(),h()]`,
+	`AB=1;AB=2`, `AB=1;AB=1`, `AB=1;func f(){AB:=3;AB};f()`, `A=[1];A[0]=5;A`,
+	`func f(a,..){[a,..]};[f(1,2,3),f(1),f(1,[2,3])]`, `func f(a,..){[a,..]};f()`,
+	`f=func(n){if n<=1 {return 1}; n*self(n-1)};f(5)`,
+	`for i=5{if i==1{continue};if i==3{break};print(i)}`,
+	`func f(){for i=5{if i==2{return i*10}};99};f()`,
+	`for kv={1:2,3:4}{print(kv)}`, `for x="abc"{print(x)}`, `r=for 3{7};r`, `for i=3:1{i}`,
+	`print("a",1,1.5,true,nil,[1,"b"],{"k":"v"})`, `print(["q\"x\\y\n\t\x01\xff"])`, `println(0.5,2.25,-3.0,100.0,0.125)`,
+	`catch(error("boom",1))`, `x=error("a");5`, `[1,error("x"),3]`,
+	`a=[1,2,3];a[-1]=9;a`, `m={};m.a=3;m`, `m={"a":{"b":1}};m.a.b`,
+	`1+2*3-4/2`, `2*3%4`, `1<<2+1`, `1|2&3^4`, `1<2==true`, `- -2`, `a=1;a+++1`, `1:3+1`, `true&&false||true`,
+	`1.5+1`, `1.5*2`, `1/2.0`, `3%2.5`, `2.5%-2`, `-2.5%2`, `1.5/0`, `0.0/0`, `7.0/2`,
+	`func f(n){if n==0{return 0};n+f(n-1)};f(10)`,
+	`func ev(n){if n==0{true}else{od(n-1)}};func od(n){if n==0{false}else{ev(n-1)}};ev(7)`,
+}
+
+// ---------------------------------------------------------------------------------------------------
+// operator-pair matrix at depth 2: a op1 b op2 c without parentheses (the real parser's precedence and
+// associativity decide the tree), over operand triples, plus prefix x infix.
+var matrixOps = []string{"+", "-", "*", "/", "%", "<<", ">>", "&", "|", "^", "==", "!=", "<", ">", "<=", ">=", "&&", "||", ":"}
+var matrixPrefix = []string{"-", "!", "~", "+"}
+
+func matrixOperands(thorough bool) [][3]string {
+	ints := []string{"0", "1", "2", "3", "63", "64", "9223372036854775807", "a", "b"}
+	var out [][3]string
+	if thorough {
+		vals := []string{"0", "1", "3", "64", "9223372036854775807", "a"}
+		for _, x := range vals {
+			for _, y := range vals {
+				for _, z := range vals {
+					out = append(out, [3]string{x, y, z})
+				}
+			}
+		}
+	} else {
+		for i := 0; i < 4; i++ {
+			out = append(out, [3]string{ints[(i*5)%len(ints)], ints[(i*3+1)%len(ints)], ints[(i*7+2)%len(ints)]})
+		}
+	}
+	// a few mixed-type triples
+	out = append(out, [3]string{"true", "false", "true"}, [3]string{"1.5", "2", "0.5"}, [3]string{"\"a\"", "\"b\"", "2"},
+		[3]string{"[1]", "[2]", "1"}, [3]string{"nil", "1", "true"}, [3]string{"2", "true", "\"s\""})
+	return out
+}
+
+func (r *runner) matrix(thorough bool) int {
+	n := 0
+	prelude := "a=(-9223372036854775807-1);b=(-1);"
+	ops := matrixOperands(thorough)
+	for _, o1 := range matrixOps {
+		for _, o2 := range matrixOps {
+			for _, t := range ops {
+				r.one(prelude+t[0]+" "+o1+" "+t[1]+" "+o2+" "+t[2], "matrix", map[string]bool{o1: true, o2: true, "m": true})
+				n++
+			}
+		}
+	}
+	for _, p := range matrixPrefix {
+		for _, o := range matrixOps {
+			for _, t := range ops[len(ops)-8:] {
+				r.one(prelude+p+t[0]+" "+o+" "+p+t[1], "matrix-prefix", map[string]bool{p: true, o: true, "m": true})
+				n++
+			}
+		}
+	}
+	return n
+}
+
+// ---------------------------------------------------------------------------------------------------
+// model-free oracle: an expression over global variables means the same inside a function
+func (r *runner) wrapOracle(g *gen) {
+	c := r.c
+	pre := []string{"gi = " + g.intLit(), "gf = " + floatLits[g.n(len(floatLits))], "gb = " + g.pick("true", "false"),
+		"gs = " + g.strLit(), "ga = " + g.arrLit(0, tInt), "gm = " + g.mapLit(0, tStr)}
+	exprs := []string{"gi + 1", "-gi", "gf * 2", "!gb", "gs + \"x\"", "ga + [gi]", "[gi, gs, gb]", "{\"k\": gs}", "catch(gs)", "catch(gi).value",
+		"if gb {1} else {2}", "len(ga)", "first(ga)", "rest(gs)", "ga[1:]", "gm + {\"zz\": gi}", "gm.a", "ga[0]", "gs[0]", "gi == gi", "gs < gs", "gb && gb", "gi:gi+2"}
+	stmts := []string{"print(gs)", "println(gs, gi, ga)", "for gi % 3 {print(gs)}", "for i9 = 0:gi % 4 {print(i9)}", "for x9 = ga {print(x9)}", "for x9 = gs {print(x9)}",
+		"for k9 = gm {print(k9)}", "del(gm[\"a\"]); print(gm)", "gi++; print(gi)", "ga[0] = 5; print(ga)", "gm.q = 1; print(gm)", "t9 = 0; for t9 < gi % 3 {t9++; print(gb)}"}
+	prelude := strings.Join(pre, ";\n") + ";\n"
+	var body string
+	if g.pct(50) {
+		body = exprs[g.n(len(exprs))]
+	} else {
+		body = stmts[g.n(len(stmts))]
+	}
+	top := runImpl(prelude+body, true)
+	fn := runImpl(prelude+"func w9() {"+body+"};\nw9()", true)
+	c.Eval()
+	c.Eval()
+	if top.obs != fn.obs {
+		c.Fail("wrap-in-function-changes-meaning:"+strings.Fields(strings.NewReplacer("(", " ", "[", " ", ".", " ").Replace(body))[0],
+			"EVAL "+Hx([]byte(prelude+"func w9() {"+body+"};\nw9()")), fmt.Sprintf("top level %s, inside a function %s", top.obs, fn.obs))
+	}
+}
+
+// ---------------------------------------------------------------------------------------------------
+func runC01(c *Ctx) {
+	c.Rule = "programs from a typed grammar of the core language (about 85% well typed, the rest ill typed at one node), parsed by the real parser; " +
+		"the tree is evaluated by the real evaluator (fresh state, registers off) and by the extracted reference evaluator; " +
+		"printed bytes, typed value and error flag compared. non-trivial = distinct agreeing in-domain program that printed output or combined >= 3 tracked constructs"
+	r := &runner{c: c, st: eval.NewState()}
+	r.mp = startModel()
+	defer r.mp.stop()
+	if r.mp == nil {
+		c.Extra["model_process"] = "unavailable: cases are compared by ./check only, no shrinking"
+	}
+	if c.ReplayCase != "" {
+		f := strings.Fields(c.ReplayCase)
+		if len(f) >= 2 && f[0] == "EVAL" {
+			src := string(Unhx(f[1]))
+			fmt.Printf("replay program:\n%s\n", src)
+			r.one(src, "replay", map[string]bool{})
+			// wrap oracle cases replay themselves through r.one as well (their program is complete)
+			for _, fl := range c.Failures {
+				fmt.Printf("REPRODUCED %s: %s\n", fl.Sig, fl.Detail)
+			}
+		}
+		return
+	}
+	for _, src := range corpus {
+		r.one(src, "corpus", map[string]bool{"corpus": true, "a": true, "b": true})
+	}
+	nprog, nwrap := 700, 150
+	if c.Thorough() {
+		nprog, nwrap = 30000, 3000
+	}
+	nm := r.matrix(c.Thorough())
+	c.Extra["operator_pair_matrix_cases"] = nm
+	if c.Thorough() {
+		c.Extra["exhaustive"] = true
+		c.Extra["exhaustive_what"] = "every ordered pair of the 19 infix operators (and prefix x infix) without parentheses over 6^3 integer operand triples and 6 mixed-type triples"
+	}
+	featTotal := map[string]int{}
+	for i := 0; i < nprog; i++ {
+		g := newGen(c.R, c.R.Pct(15))
+		src := g.program()
+		for f := range g.feats {
+			featTotal[f]++
+		}
+		kind := "well-typed"
+		if g.didIll {
+			kind = "ill-typed"
+		}
+		r.one(src, kind, g.feats)
+	}
+	for i := 0; i < nwrap; i++ {
+		r.wrapOracle(newGen(c.R, false))
+	}
+	// distribution
+	for f, n := range featTotal {
+		c.Dist["feat:"+f] = n
+	}
+	c.Extra["in_domain_ratio"] = fmt.Sprintf("%d compared / %d parsed (%.1f%%); %d parse errors", r.nCompared, r.nCompared+r.nSkip,
+		100*float64(r.nCompared)/float64(max(1, r.nCompared+r.nSkip)), r.nParseErr)
+	c.Extra["registers_on_vs_off_samples"] = r.regDiffs
+	c.Extra["allow_list"] = allowList
+}
